@@ -180,6 +180,54 @@ func (g *vcGenS) baseTCP(kind int) []string {
 	return ops
 }
 
+// vcRelayStages: relay gathering against a stalled TURN server, per transport flavour the stages at which
+// gatherCandidatesRelay can block: (udp) the allocation request is never answered; (tcp) the connection is
+// established at once or late and the allocation is never answered, or the dial fails late; (tls) the connection is
+// established at once or late and the ClientHello is swallowed, or the dial fails late; (dtls) the ClientHello is
+// swallowed.  Every wait is bounded here (TURN transaction: 7 transmissions = 7.8 s; dial: <= 2.5 s), so that Close
+// has to return within the bound.  NOT generated, because Close then waits for the dial on the unchanged tree
+// (transport.Net.DialTCP takes no context; finding F-C08-dial in notes/C08.md §10): stage "dial" (never returns) and
+// dial<ms> / late<ms> with ms beyond the bound.
+var vcRelayStages = [][2]string{
+	{"udp", "silent"}, {"tcp", "silent"}, {"tls", "silent"}, {"dtls", "silent"},
+	{"tcp", "late1000"}, {"tls", "late1000"}, {"tcp", "dial1000"}, {"tls", "dial2500"},
+}
+
+// baseRelay: the agent gets a turn:/turns: URL of the flavour and gathers; the TURN server stalls at the stage.
+func (g *vcGenS) baseRelay(flavour, stage string) []string {
+	r := g.r
+	var ops []string
+	add := func(f string, a ...any) { ops = append(ops, fmt.Sprintf(f, a...)) }
+	if r.chance(1, 3) {
+		add("hdl A %s %s", vcStreams[r.intn(3)], []string{"block", "getlocal", "restart", "addremote"}[r.intn(4)])
+	}
+	add("turn A %s %s %s", flavour, stage, []string{"hr", "r", "hsr", "hr", "sr"}[r.intn(5)])
+	if r.chance(1, 3) {
+		add("cand A 16 %s", []string{"n", "w", "e"}[r.intn(3)])
+	}
+	add("api A gather")
+	add("adv %d", []int{1, 10, 100, 500, 1000, 3000}[r.intn(6)])
+	for i := r.intn(4); i > 0; i-- {
+		switch r.intn(6) {
+		case 0: // a second cycle while the first is still stalled
+			add("api A restart")
+			add("api A gather")
+		case 1:
+			add("api A %s", []string{"getlocal", "creds", "stats", "gather"}[r.intn(4)])
+		case 2:
+			add("adv %d", []int{10, 200, 1500, 4000}[r.intn(4)])
+		case 3:
+			add("remote A 176")
+			add("%s", []string{"start A 1", "start A 0"}[r.intn(2)])
+		case 4:
+			add("release A")
+		default:
+			add("read A")
+		}
+	}
+	return ops
+}
+
 // vcProfiles: the socket fault profiles = {blocked write released by deadline | by Close | by either | by the
 // environment only} x {blocked read released by deadline | by Close | by either} x {Close instant | slow | fails | slow
 // and fails}.
@@ -384,6 +432,25 @@ func vcGen(o *vOut, r *vRand, thorough bool, args []string, emit func(op string)
 			o.stat("close.tcp")
 		}
 	}
+	// relay gathering against a stalled TURN server: every transport flavour x every stage that can block
+	nrelay, rstride := 2, 2
+	if thorough {
+		nrelay, rstride = 25, 1
+	}
+	for round := 0; round < nrelay; round++ {
+		for _, fs := range vcRelayStages {
+			if time.Since(t0) >= budget || vcAlarms >= 3 {
+				break
+			}
+			g := &vcGenS{r: r.fork(), emit: emit, o: o, prefix: "m"}
+			base := g.baseRelay(fs[0], fs[1])
+			for pos := 1 + g.r.intn(rstride); pos <= len(base) && vcAlarms < 3; pos += rstride {
+				id++
+				g.inject(id, base, pos, g.r.intn(6))
+				o.stat("close.relay")
+			}
+		}
+	}
 	// socket fault profiles x a Conn.Write parked in the socket at the time of Close
 	profiles := vcProfiles()
 	rounds := 1
@@ -436,6 +503,10 @@ func vcGen(o *vOut, r *vRand, thorough bool, args []string, emit func(op string)
 			o.stat(fmt.Sprintf("close.variant"))
 		}
 	}
+	// the run reached what it aims at (not judged when it was cut short by alarms)
+	if vcAlarms == 0 {
+		emit("close coverage")
+	}
 }
 
 // hand-written boundary sessions judged by the monitor only (ids "m…"): ICE-TCP with a full receive queue, slow socket Close
@@ -450,6 +521,15 @@ var vcFixedM = [][]string{
 	// slow: the Conn.Write parked in the socket wakes while the receive loop is still alive; it must report an error
 	{"cand A 16 Rs", "cand B 176 n", "remote A 176", "remote B 16", "dial A", "accept B", "flush 8", "blockw A 16 1", "write A 50", "adv 400", "close A 0"},
 	{"cand A 16 DRse", "cand B 176 n", "remote A 176", "remote B 16", "start A 1", "start B 0", "flush 8", "blockw A 16 1", "write A 7", "close A 1"},
+	// relay gathering, the TURN server reached over each transport flavour stays silent (allocation request / TLS
+	// ClientHello / DTLS ClientHello swallowed); Close, GracefulClose, concurrent and repeated closers while it is stalled
+	{"turn A udp silent hr", "api A gather", "adv 100", "close A 0", "api A getlocal", "close A 1"},
+	{"turn A tcp silent r", "api A gather", "adv 100", "close A 1", "api A gather"},
+	{"turn A tls silent r", "api A gather", "adv 100", "close A 0", "close A 1", "api A getlocal"},
+	{"turn A tls silent hsr", "api A gather", "adv 1000", "close A 1 0"},
+	{"turn A dtls silent hr", "api A gather", "adv 100", "close A 0 1", "api A restart"},
+	// the TCP connection to the TURN server is established only after Close was called
+	{"turn A tls late1000 r", "api A gather", "adv 100", "close A 1", "adv 2000"},
 	// a task that starts a candidate, and the next check, parked behind a task stuck in a socket whose Close is slow:
 	// none of them may run once Close has begun
 	{"cand A 16 ws", "remote A 176", "start A 1", "cand A 48 w", "adv 200", "close A 0", "adv 100"},
